@@ -65,6 +65,9 @@ def run(rep, tier, seed):
     wg = SC.write_grid(tier)
     SC.model_and_replay(rep, "w", wg[:3] + [s for s in wg if s["name"] == "w_t115"], "c13_w_" + tier, ["AllDeleted", "DeadlockFree"],
                         liveness=False, variant="asan", key="write")
+    # the output file fails at an arbitrary moment: every object is still released exactly once, close() returns
+    SC.model_and_replay(rep, "w", SC.write_fault_grid(tier)[:1 if tier == "quick" else 4], "c13_wf_" + tier,
+                        ["AllDeleted", "DeadlockFree", "FaultPrefix"], liveness=False, variant="asan", key="write-fault")
     rep.cov["distinct_nontrivial"] = sum(m["edges"] for m in rep.cov.get("m1", []))
     rep.assumptions += ["good()/eof() are compared only while a read session is open (they race with the worker by "
                         "design while writing)", "leaks are detected by LeakSanitizer's reachability analysis"]
